@@ -12,6 +12,7 @@
   (getattr at call time, supplied by the harness for the objects it generated).
 -/
 import Fadl.Model.Called
+import Fadl.Scope
 namespace Fadl
 
 inductive Captured where
@@ -58,7 +59,10 @@ def rewriteCaptured (snap : Snapshot) (attrs : AttrTable) (ctors : List String) 
     else match snapGet x snap with
       | some (.lit c) => .const c
       | some (.klass c) => .const c
-      | some (.lam e) => e
+      | some (.lam e) =>
+        -- a helper whose body uses, from its own scope, a name that a parameter or loop variable binds at this call site is
+        -- left by name (inlining it would put that name under the binder)
+        if (freeNames [] e).any (fun n => isIgnored n ig) then .name x else e
       | some .keep => .name x
       | Option.none => .name x
   | .const c => .const c
